@@ -273,6 +273,30 @@ BigTable(n, m) ==
      title  |-> T1, index |-> ""]
 BigTables(profile) == {BigTable(n, m) : n \in BigSizes, m \in 0..1}
 
+(* LONG family: the list-of-rows model does not depend on the number of rows, an implementation may *)
+(* (sampling windows, chunking).  A column of one type with ONE cell of another type; W stands for   *)
+(* any internal window: the odd cell is placed before, at the end of, just beyond and well beyond   *)
+(* row W and in the last row.  Column r numbers the model rows: the harness scales an instance by    *)
+(* repeating model row i m_i times (long_C20.py) so that the odd cell lands on real rows 0, 999,     *)
+(* 1000, 1200 and last of tables of 1001 / 1500 / 5000 rows; every operation here works row by row,  *)
+(* so its answer on the scaled table is the answer on the model table scaled the same way.           *)
+LongW == 3
+LongN == LongW + 3
+LongKinds == {<<I(<<"1">>), S(<<"N", "A">>)>>,          \* int column with one text cell
+              <<S(sA), I(<<"7">>)>>,                    \* text column with one number
+              <<F(<<"1", ".", "5">>), S(<<"N", "A">>)>>,
+              <<cTrue, S(<<"N", "A">>)>>}
+LongTable(kind, p) ==
+    [header |-> <<"r", "v", "x">>,
+     rows   |-> [i \in 1..LongN |-> <<I(DecText(i)), IF i = p THEN kind[2] ELSE kind[1], I(<<"0">>)>>],
+     title  |-> T1, index |-> ""]
+LongTables(profile) == {LongTable(kind, p) : kind \in LongKinds, p \in 1..LongN}
+LongOther(t) ==
+    LET vals == Range(Col(t, "v"))
+        base == CHOOSE v \in vals : Cardinality({i \in 1..Len(t.rows) : t.rows[i][2] = v}) > 1
+        odd  == CHOOSE v \in vals : v # base
+    IN [header |-> <<"v", "w">>, rows |-> << <<base, S(sA)>>, <<odd, S(sB)>> >>, title |-> T2, index |-> ""]
+
 -----------------------------------------------------------------------------
 (* Arguments                                                                  *)
 
@@ -399,6 +423,7 @@ Init == /\ res = [init |-> TRUE]
                                              tab = WithIndex(t, ix)
                                         /\ oth = "-"
              [] Group = "big"    -> tab \in BigTables(Profile) /\ oth = "-"
+             [] Group = "long"   -> tab \in LongTables(Profile) /\ oth = LongOther(tab)
              [] Group = "binary" -> \E p \in BinaryPairs(Profile) : \E ix \in IndexPairs(p) :
                                         tab = WithIndex(p[1], ix[1]) /\ oth = WithIndex(p[2], ix[2])
 
@@ -413,6 +438,14 @@ Step == \/ /\ Group \in {"unary", "big"}
               \/ \E cols \in DistinctSeqs(Range(tab.header)) : UniqueV(cols) \/ GetColumns(cols)
               \/ \E f \in Derivations(tab) : WithNewColumn(f)
               \/ \E sel \in Range(tab.header) : Transposed(sel)
+        \/ /\ Group = "long"
+           /\ \/ Sorted(<<"x">>, {})                                  \* stable: nothing moves
+              \/ \E o \in {"eq", "ne"} : \E v \in Range(Col(tab, "v")) : Filtered([col |-> "v", op |-> o, val |-> v])
+              \/ UniqueV(<<"v">>)
+              \/ GetColumns(<<"r", "v", "x">>)
+              \/ \E v \in Range(Col(tab, "v")) : WithNewColumn([fn |-> "iseq", cols |-> <<"v">>, val |-> v])
+              \/ WithNewColumn([fn |-> "second", cols |-> <<"r", "v">>, val |-> None])
+              \/ InnerJoin(<<"v">>, <<"v">>, "right_")
         \/ /\ Group = "binary"
            /\ \E px \in ColPrefixes(tab, oth) :
                  \/ \E k \in JoinKeys(tab, oth) : InnerJoin(k[1], k[2], px)
@@ -490,6 +523,16 @@ TransposeLaw ==
             LET t1 == TransposedTable(tab, sel, sel)
                 t2 == TransposedTable(t1, sel, sel)
             IN t2.header = tab.header /\ t2.rows = tab.rows
+
+(* the type of a cell read back is the type it was given, at every row index *)
+LongTypeLaw ==
+    (AtLaws /\ Group = "long") =>
+    \E p \in 1..LongN : \E kind \in LongKinds :
+        /\ tab = LongTable(kind, p)
+        /\ \A i \in 1..LongN :
+             /\ Tag(ColumnsTable(tab, <<"v">>).rows[i][1]) = Tag(IF i = p THEN kind[2] ELSE kind[1])
+             /\ Tag(FilteredRows(tab, [col |-> "r", op |-> "eq", val |-> I(DecText(i))])[1][2])
+                    = Tag(IF i = p THEN kind[2] ELSE kind[1])
 
 ResultShape == (done /\ "rows" \in DOMAIN res) => IsTable(res)
 =============================================================================
